@@ -34,6 +34,12 @@ type machine interface {
 	// Block computes block idx; commit=false drops it afterwards. obs "" = ok, else "panic"/"err".
 	Block(idx uint32, ops []subop, commit bool) (util.Uint256, string)
 	GC(g uint32)
+	// GCLow collects on the persistent layer WITHOUT persisting first (what the node does between two
+	// persist ticks: blockchain.go:1422 `GC(tgt, bc.store)` while bc.dao.Store holds newer blocks).
+	GCLow(g uint32)
+	// Upper is the DataMPT part of the MemCachedStore's pending change set (the layer above the
+	// persistent store): pending puts and the number of pending deletions.
+	Upper() (view, int)
 	Reset()
 	Persist()
 	View() view
@@ -136,6 +142,9 @@ func (t *trieM) GC(g uint32) {
 	t.gc.GC(g, t.ps)
 }
 
+func (t *trieM) GCLow(g uint32) { t.gc.GC(g, t.ps) }
+func (t *trieM) Upper() (view, int) { return readUpper(t.ms) }
+
 // Reset: either collapse the whole trie to its root hash or reopen it from the root hash.
 func (t *trieM) Reset() {
 	r := t.tr.StateRoot()
@@ -173,6 +182,9 @@ type modM struct {
 	ps       storage.Store
 	copies   bool // the persistent layer hands out copies (no slice aliasing with what was put)
 	leak     string
+	tick     bool   // a persist tick of the node falls between AddMPTBatch and the (missing) commit of a dropped block
+	tickObs  string // what that persist found waiting in the MemCachedStore ("" = no tick happened)
+	leakDisk string // the persistent layer after that tick against everything committed before the block
 	cleanup  func()
 	ms       *storage.MemCachedStore
 	mod      *stateroot.Module
@@ -196,6 +208,43 @@ func newModMOn(m, lower string) *modM {
 	return x
 }
 
+// PrePersist: over a copying persistent layer everything below the block's cache is flushed down
+// before a block, so that nothing the block does before it is committed can reach it through a
+// shared slice. Returns the observation of the `persist` line ("" = nothing was done).
+func (x *modM) PrePersist() string {
+	if !x.copies {
+		return ""
+	}
+	obs := upperObs(x)
+	if _, err := x.ms.PersistSync(); err != nil {
+		panic(err)
+	}
+	return obs
+}
+
+// readUpper: the pending DataMPT changes of a MemCachedStore (GetBatch = its `mem` map).
+func readUpper(s *storage.MemCachedStore) (view, int) {
+	b := s.GetBatch()
+	v, dels := view{}, 0
+	for _, kv := range b.Put {
+		if len(kv.Key) > 0 && kv.Key[0] == byte(storage.DataMPT) {
+			v[string(kv.Key[1:])] = bytes.Clone(kv.Value)
+		}
+	}
+	for _, kv := range b.Deleted {
+		if len(kv.Key) > 0 && kv.Key[0] == byte(storage.DataMPT) {
+			dels++
+		}
+	}
+	return v, dels
+}
+
+// upperObs: "up=<pending puts>/<pending deletions>" of the DataMPT records.
+func upperObs(m machine) string {
+	v, d := m.Upper()
+	return fmt.Sprintf("up=%d/%d", len(v), d)
+}
+
 func (x *modM) Name() string  { return "module" }
 func (x *modM) CanDrop() bool { return x.inMemory }
 
@@ -208,13 +257,6 @@ func (x *modM) Block(idx uint32, ops []subop, commit bool) (root util.Uint256, o
 	if len(ops) != 1 || ops[0].kind != 'b' {
 		panic(fmt.Sprintf("module machine takes exactly one batch per block, got %d ops", len(ops)))
 	}
-	if x.copies {
-		// everything below the block's cache sits in the copying layer: nothing the block does
-		// before it is committed can reach it through a shared slice
-		if _, err := x.ms.PersistSync(); err != nil {
-			panic(err)
-		}
-	}
 	before := readRaw(x.ms)
 	cache := storage.NewPrivateMemCachedStore(x.ms)
 	tr, sr, err := x.mod.AddMPTBatch(idx, toBatch(ops[0].batch), cache)
@@ -224,7 +266,17 @@ func (x *modM) Block(idx uint32, ops []subop, commit bool) (root util.Uint256, o
 	if err != nil {
 		return root, "err"
 	}
+	x.tickObs, x.leakDisk = "", ""
 	if !commit {
+		if x.tick {
+			// blockchain.go: persist() runs on its own timer without bc.lock, so it can fall between
+			// AddMPTBatch and the commit; what reaches the disk must be what was committed before
+			x.tickObs = upperObs(x)
+			if _, err := x.ms.Persist(); err != nil {
+				panic(err)
+			}
+			x.leakDisk = diffRaw(before, readRawStore(x.ps), x.copies)
+		}
 		return sr.Root, ""
 	}
 	if _, err := cache.Persist(); err != nil {
@@ -240,6 +292,9 @@ func (x *modM) GC(g uint32) {
 	x.Persist()
 	x.mod.GC(g, x.ps)
 }
+
+func (x *modM) GCLow(g uint32) { x.mod.GC(g, x.ps) }
+func (x *modM) Upper() (view, int) { return readUpper(x.ms) }
 
 // Reset = node restart: a new module over the same store, initialised at the current height.
 func (x *modM) Reset() {
@@ -266,6 +321,18 @@ func (x *modM) Find(root util.Uint256, prefix []byte) ([]storage.KeyValue, error
 
 // readRaw dumps every key of the store (all prefixes), merged view.
 func readRaw(s *storage.MemCachedStore) map[string][]byte {
+	m := map[string][]byte{}
+	for _, p := range []storage.KeyPrefix{storage.DataMPT, storage.DataMPTAux} {
+		s.Seek(storage.SeekRange{Prefix: []byte{byte(p)}}, func(k, v []byte) bool {
+			m[string(k)] = bytes.Clone(v)
+			return true
+		})
+	}
+	return m
+}
+
+// readRawStore dumps the DataMPT and DataMPTAux keys of a persistent store.
+func readRawStore(s storage.Store) map[string][]byte {
 	m := map[string][]byte{}
 	for _, p := range []storage.KeyPrefix{storage.DataMPT, storage.DataMPTAux} {
 		s.Seek(storage.SeekRange{Prefix: []byte{byte(p)}}, func(k, v []byte) bool {
